@@ -363,6 +363,18 @@ def variable_views(dataset):
     return found
 
 
+def param_view(holder):
+    attrs = holder.attrs
+    return sorted(attrs), [attrs[k] for k in attrs]
+
+
+def param_view_kept(holder):
+    """The attribute is assigned in between: the old dictionary stays under its name."""
+    attrs = holder.attrs
+    holder.attrs = {'new': 1}
+    return sorted(attrs), sorted(holder.attrs)
+
+
 def library_keywords_kept(xs):
     """A keyword that is NOT the documented default stays: Fortran order is another array."""
     grid = numpy.asarray(xs).reshape((2, 2), order='F')
@@ -1447,6 +1459,8 @@ CASES = {
     'method_alias_kept': [(HOLDER_C, ['bounds', 'start_index'])],
     'loop_over_returned_generator': [(['a', None, 'c'],), ([],), ([None],)],
     'variable_views': [(_xr_dataset(),)],
+    'param_view': [(HOLDER_A,), (HOLDER_C,)],
+    'param_view_kept': [(Holder(dims=(), attrs={'a': 1}, alpha='p', beta='q'),)],
     'library_keywords_kept': [([1, 2, 3, 4],)],
     'get_test_encoding': [({'k': 1}, 'k'), ({}, 'k'), ({'k': None}, 'k'), ({'k': 0}, 'k')],
     'conditional_element': [(True,), (False,)],
